@@ -67,7 +67,7 @@ func (op *tagValuesLookup) findTagValueIDsByExpr(expr stmt.Expr) {
 		if err != nil {
 			// no series of the metric on this node carries the tag key (another node may have some): the filter
 			// matches nothing here, the rest of the condition is still evaluated
-			op.executeCtx.TagFilterResult[expr.Rewrite()] = &flow.TagFilterResult{
+			op.executeCtx.TagFilterResult[tagFilterKey(expr)] = &flow.TagFilterResult{
 				TagKeyNotFound: true,
 				TagValueIDs:    roaring.New(),
 			}
@@ -82,7 +82,7 @@ func (op *tagValuesLookup) findTagValueIDsByExpr(expr stmt.Expr) {
 			tagValueIDs = roaring.New()
 		}
 		// save atomic tag filter result
-		op.executeCtx.TagFilterResult[expr.Rewrite()] = &flow.TagFilterResult{
+		op.executeCtx.TagFilterResult[tagFilterKey(expr)] = &flow.TagFilterResult{
 			TagKeyID:    tagKeyID,
 			TagValueIDs: tagValueIDs,
 		}
@@ -113,4 +113,21 @@ func (op *tagValuesLookup) getTagKeyID(tagKey string) (tag.KeyID, error) {
 // Identifier returns identifier value of tag value lookup operator.
 func (op *tagValuesLookup) Identifier() string {
 	return "Tag Value Lookup"
+}
+
+// tagFilterKey returns the key of an atomic tag filter in the tag filter result set. Rewrite() is made for display
+// and is not injective: host='~x' and host=~'x' both read "host=~x", in ('a','b') and in ('a,b') both "host in (a,b)".
+func tagFilterKey(expr stmt.Expr) string {
+	switch e := expr.(type) {
+	case *stmt.EqualsExpr:
+		return fmt.Sprintf("eq:%q:%q", e.Key, e.Value)
+	case *stmt.InExpr:
+		return fmt.Sprintf("in:%q:%q", e.Key, e.Values)
+	case *stmt.LikeExpr:
+		return fmt.Sprintf("like:%q:%q", e.Key, e.Value)
+	case *stmt.RegexExpr:
+		return fmt.Sprintf("regex:%q:%q", e.Key, e.Regexp)
+	default:
+		return fmt.Sprintf("%T:%s", expr, expr.Rewrite())
+	}
 }
